@@ -118,11 +118,16 @@ def check_one(J, u, norm_eps, reg_eps, dtype, which, key=None, pref_dtype=None):
     if res > 1e-9:
         return None, {}, False, "dropped"  # reference not certified (counted)
     x_ref = Jd.T @ w_ref
-    wsc = max(1.0, float(np.abs(w_ref).max()))
+    # the problem is homogeneous of degree one in u: tolerances follow the size of u (1 for every preference of ordinary size)
+    u_size = min(1.0, float(np.abs(uu).max()) * m)
+    wsc = max(u_size, float(np.abs(w_ref).max()))
     ssc = max(s, 1e-300)
     # tolerances: outputs 1e-9*s (float64), 2e-4*s (float32), times the size of the weights; weights 1e-10/reg_eps
-    tol_x = (1e-9 if not f32 else 2e-4) * ssc * wsc
-    tol_w = (1e-10 / reg_eps) * wsc
+    # plus an absolute floor of a few float64 roundings relative to s (the QP solver's feasibility test is absolute at that level:
+    # with |u| ~ 1e-12 its answer is off by ~1e-16, observed) - only visible with the tiny preference vectors
+    floor = 32 * 2.3e-16
+    tol_x = (1e-9 if not f32 else 2e-4) * ssc * wsc + floor * ssc
+    tol_w = (1e-10 / reg_eps) * wsc + floor
     ex = float(np.abs(x - x_ref).max())
     ew = float(np.abs(w - w_ref).max())
     mg = {"output": ex / tol_x}
@@ -144,7 +149,7 @@ def check_one(J, u, norm_eps, reg_eps, dtype, which, key=None, pref_dtype=None):
     Jn = Jd / s if s > 0 else Jd  # sign pattern of the Gramian, computed without overflow at extreme scales
     G = Jn @ Jn.T
     xu = Jd.T @ uu
-    usc = max(1.0, float(np.abs(uu).max()))
+    usc = max(u_size, float(np.abs(uu).max()))
     tol_c = ((1e-13 + 1e-15 / reg_eps) if not f32 else 1e-5) * ssc * usc
     if viol is None and s >= norm_eps and (G >= 0).all():
         e = float(np.abs(x - xu).max())
@@ -178,6 +183,10 @@ def _configs(J0, fam):
             if k == 0:
                 configs.append((1.0, None, np.arange(1, m + 1, dtype=np.float64), ne, re_, "float64", "int64"))
                 configs.append((1.0, None, P[-2], ne, re_, "float64", "float32"))
+            if k == 0:  # tiny preference vectors (the projection is homogeneous in u: nothing may be cut off at an absolute threshold)
+                for f in (1e-6, 1e-9, 1e-12):
+                    configs.append((1.0, None, P[-2] * f, ne, re_, "float64"))
+                configs.append((1.0, None, P[-2] * 1e-9, ne, re_, "float32"))
             if k == 0:  # extreme global scales, where squaring the matrix before normalising it would overflow / underflow
                 for u in (None, P[-2]):
                     configs.append((1e160, None, u, ne, re_, "float64"))
